@@ -64,6 +64,9 @@ MissingUnk(F) == \E c \in PrimaryCats(F) : ~\E i \in 1..Len(F.unk) : Len(F.unk[i
 MustErr(F) == \/ CharMustErr(F) \/ MatrixMustErr(F)
               \/ (MatrixHeaderOK(F) /\ (RowIdsOutside(F.lex, NR(F), NL(F)) \/ RowIdsOutside(F.unk, NR(F), NL(F))))
               \/ UnkUndefinedCat(F)
-Class(F, base) == IF F = base THEN "VALID" ELSE IF MustErr(F) THEN "MUST_ERR"
-                  ELSE IF MissingUnk(F) THEN "MUST_ERR_F12" ELSE "DONT_CARE"
+(* char.def lines are split at runs of blanks: an empty token does not exist there *)
+NormChar(F) == [F EXCEPT !.char = [i \in 1..Len(F.char) |-> SelectSeq(F.char[i], LAMBDA t : t # "")]]
+Class(F0, base) == LET F == NormChar(F0) IN
+                   IF F = base THEN "VALID" ELSE IF MustErr(F) THEN "MUST_ERR"
+                   ELSE IF MissingUnk(F) THEN "MUST_ERR_F12" ELSE "DONT_CARE"
 =======================================================================
